@@ -125,6 +125,13 @@ def build_programs(R, rng, tier):
     ]
     for s in extras:
         progs.append({"src": s, "include": ["B001"], "kind": "extra", "expect": None})
+    # the built-in check selected next to ordinary plugins (B001 stands for every blacklist rule whatever else is listed)
+    for inc in (["B001", "B602"], ["B001", "B101", "B324"], ["B602", "B001"]):
+        for src, rule, line in (("import pickle\npickle.loads(x)\n", "B301", 2), ("import telnetlib\n", "B401", 1),
+                                ("from xml.etree.ElementTree import fromstring\nfromstring(x)\n", "B314", 2)):
+            lvl = [r_ for t_ in ("Call", "Import") for r_ in bl[t_] if r_["id"] == rule][0].get("level", "MEDIUM")
+            progs.append({"src": src, "include": inc, "kind": "call" if rule.startswith("B3") else "import", "rule": rule, "level": lvl,
+                          "q": rule, "spelling": "selection " + ",".join(inc), "ctx": "top", "line": line, "expect": True})
     # one statement importing two blacklisted modules: each is a rule x spelling of the statement
     for src, ids in (("import telnetlib, ftplib\n", ["B401", "B402"]), ("import pickle, subprocess as sp\n", ["B403", "B404"]),
                      ("from xml import sax, dom\n", ["B406", "B408"])):
